@@ -64,6 +64,7 @@ type cRunCfg struct {
 	SlowPct    int    `json:"slow_pct"`    // share of deliveries that take the whole target timeout (in injected time)
 	FailPct    int    `json:"fail_pct"`    // share answered 500 (retry); DeadPct: 400 (dead letter)
 	DeadPct    int    `json:"dead_pct"`
+	HotPct     int    `json:"hot_pct"`     // share of lease picks that go for the most recently issued lease of anybody
 	HoldPct    int    `json:"hold_pct"`    // share of leases a worker keeps across phases instead of settling at once
 	DelivAge   int64  `json:"deliv_age"`   // delivered retention (0: ack deletes)
 }
@@ -150,8 +151,9 @@ type cRun struct {
 	pushG     sync.Map               // goroutine id -> *int32 (1 = holding)
 	unquiet   int64                  // phase ends at which the dispatcher did not come to rest in time
 
-	pushLease sync.Map // message id -> cItem of the latest dequeue by the dispatcher
+	pushLease sync.Map // dispatcher goroutine id -> the items of its latest non-empty dequeue (id -> cItem)
 	known     sync.Map // lease pool shared between the workers (index -> held)
+	hot       atomic.Value // the lease handed out most recently to any worker: several workers go for it at once
 	nKnown    int64
 	nextMsg   int64
 	msgIDs    sync.Map // index -> id
@@ -261,10 +263,13 @@ func (s *recStore) Dequeue(req queue.DequeueRequest) (queue.DequeueResponse, err
 		call.Sub = "deq-error"
 		call.Err = errKind(err)
 	}
-	if s.src == "push" {
+	if s.src == "push" && len(call.Items) > 0 {
+		// the micro-batch this dispatcher worker (goroutine) now holds: its Deliver calls are attributed to these leases
+		batch := make(map[string]cItem, len(call.Items))
 		for _, it := range call.Items {
-			s.r.pushLease.Store(it.ID, it)
+			batch[it.ID] = it
 		}
+		s.r.pushLease.Store(gid(), batch)
 	}
 	s.r.end(call)
 	return resp, err
@@ -402,8 +407,8 @@ func (d *stubDeliverer) Deliver(ctx context.Context, dl dispatcher.Delivery) dis
 	c := r.tick()
 	nowC := r.clk.now().UnixNano()
 	var it cItem
-	if v, ok := r.pushLease.Load(dl.ID); ok {
-		it = v.(cItem)
+	if v, ok := r.pushLease.Load(gid()); ok {
+		it = v.(map[string]cItem)[dl.ID]
 	}
 	cp, _ := d.count.LoadOrStore(dl.ID, new(int64))
 	n := atomic.AddInt64(cp.(*int64), 1)
@@ -469,10 +474,17 @@ func (w *worker) remember(items []cItem) {
 		w.mine = append(w.mine, h)
 		i := atomic.AddInt64(&w.r.nKnown, 1) - 1
 		w.r.known.Store(i, h)
+		w.r.hot.Store(h)
 	}
 }
 
 func (w *worker) pick() (held, bool) {
+	if w.rng.Intn(100) < w.r.cfg.HotPct {
+		// the same fresh lease is settled / extended by several workers at the same moment
+		if v := w.r.hot.Load(); v != nil {
+			return v.(held), true
+		}
+	}
 	if len(w.mine) > 0 && w.rng.Intn(100) < 75 {
 		i := w.rng.Intn(len(w.mine))
 		h := w.mine[i]
@@ -843,7 +855,7 @@ func concOne(dir string, idx int, cfg cRunCfg) (out cRunOut) {
 				Targets: []dispatcher.TargetConfig{{URL: "http://t1.invalid/hook", Timeout: time.Duration(cfg.PushTimeNs),
 					Retry: dispatcher.RetryConfig{Type: "exponential", Max: 3, Base: time.Duration(cfg.StepNs / 2), Cap: time.Duration(cfg.StepNs)}}}}},
 			Logger:     slog.New(slog.NewTextHandler(io.Discard, nil)),
-			MaxWait:    3 * time.Millisecond,
+			MaxWait:    6 * time.Millisecond,
 			LeaseSlack: time.Duration(cfg.PushSlack),
 		}
 		disp.Start()
